@@ -2,7 +2,7 @@
 # C12 — the bundled solution checker (`vrp-pragmatic/src/checker/*.rs`)
 
 Executable model of `CheckerContext::check` on the no-clustering fragment (point stops only, optional
-breaks, reloads without shared resources, no recharge, no time-aware matrices) over the simplified
+breaks, reloads with and without shared resources, no recharge, no time-aware matrices) over the simplified
 integer (problem, solution) pair of the shared generator, plus the **independent specification**
 `validSolution` (the rules the checker documents, stated positionally / by counting, not as folds).
 
@@ -64,6 +64,8 @@ structure Place where
   dur : Int
   tws : List TW
   tag : Option String
+  /-- `resourceId` of a reload place (shared reload resource); never set on job places -/
+  resource : Option String := none
   deriving DecidableEq, Repr
 
 structure Task where
@@ -143,6 +145,8 @@ structure Problem where
   jobs : List Job
   vehicles : List VType
   relations : List Relation
+  /-- `fleet.resources` (all of type reload): (id, capacity) -/
+  resources : List (String × Load) := []
   deriving Repr
 
 structure Act where
@@ -187,7 +191,7 @@ structure Solution where
 
 inductive Code
   | panic
-  | load_exceeds | load_mismatch
+  | load_exceeds | load_mismatch | resource
   | no_vehicle | no_shift | no_stops | no_job | no_break | no_reload | no_recharge | unknown_type | no_tag | no_place
   | rel_no_tour | rel_unknown_job | rel_dup | rel_strict | rel_sequence | rel_any
   | brk_time | brk_loc | brk_match | brk_count
@@ -198,7 +202,7 @@ inductive Code
 
 def Code.name : Code → String
   | .panic => "panic"
-  | .load_exceeds => "load_exceeds" | .load_mismatch => "load_mismatch"
+  | .load_exceeds => "load_exceeds" | .load_mismatch => "load_mismatch" | .resource => "resource"
   | .no_vehicle => "no_vehicle" | .no_shift => "no_shift" | .no_stops => "no_stops" | .no_job => "no_job"
   | .no_break => "no_break" | .no_reload => "no_reload" | .no_recharge => "no_recharge"
   | .unknown_type => "unknown_type" | .no_tag => "no_tag" | .no_place => "no_place"
@@ -494,9 +498,62 @@ def checkLoadTour (P : Problem) (t : Tour) : Option Code :=
       | .error c => some c
       | .ok _ => none
 
-/-- `check_vehicle_load` (`check_resource_consumption` is vacuous without shared resources) -/
+/-! ### `check_resource_consumption`: shared reload resources -/
+
+/-- the `resource_id` closure: the first activity of the interval's first stop that resolves (errors are dropped) to a
+reload place carrying a `resourceId` -/
+def resourceIdOf (P : Problem) (t : Tour) (s0 : Stop) : Option String :=
+  s0.acts.findSome? (fun a =>
+    match activityType P t s0 a with
+    | .ok (.reload r) => r.resource
+    | _ => none)
+
+/-- what one activity adds to the consumption of its interval: the demand of a static delivery; an activity whose type or
+demand cannot be resolved is dropped (`filter_map(.. .ok())`) -/
+def staticDeliveryOf (P : Problem) (t : Tour) (p : Stop × Act) : Load :=
+  match activityType P t p.1 p.2 with
+  | .error _ => []
+  | .ok aty =>
+    match demandOf p.2 aty with
+    | .ok (.sDelivery, d) => d
+    | _ => []
+
+/-- the `consumption` fold over `get_activities_from_interval` -/
+def consumptionOf (P : Problem) (t : Tour) (iv : List Stop) : Load :=
+  (stopActs iv).foldl (fun acc p => ladd acc (staticDeliveryOf P t p)) []
+
+/-- the (resource id, consumption) pairs of one tour: one per interval whose first stop draws on a resource -/
+def tourDraws (P : Problem) (t : Tour) : List (String × Load) :=
+  match intervals t.stops with
+  | none => []
+  | some ivs => ivs.filterMap (fun iv =>
+      match iv with
+      | [] => none
+      | s0 :: _ => (resourceIdOf P t s0).map (fun id => (id, consumptionOf P t iv)))
+
+def allDraws (P : Problem) (S : Solution) : List (String × Load) := S.tours.flatMap (tourDraws P)
+
+/-- the hash map entry of a resource after the fold over all tours -/
+def consumedOf (draws : List (String × Load)) (id : String) : Load :=
+  (draws.filter (fun p => p.1 == id)).foldl (fun acc p => ladd acc p.2) []
+
+/-- `resources` collected into a hash map: the last definition of an id wins (ids are unique after validation, E1308) -/
+def resourceCap (P : Problem) (id : String) : Option Load := (P.resources.reverse.find? (fun r => r.1 == id)).map (fun r => r.2)
+
+/-- `check_resource_consumption`: every consumed resource is defined and what is consumed fits into what is available
+(`available.can_fit(consumed)`: every zero padded dimension); both messages are one class (the real loop runs over a
+hash map) -/
+def checkResources (P : Problem) (S : Solution) : Option Code :=
+  let draws := allDraws P S
+  if (dedup (draws.map (fun p => p.1))).any (fun id =>
+      match resourceCap P id with
+      | none => true
+      | some cap => !lfit cap (consumedOf draws id))
+  then some .resource else none
+
+/-- `check_vehicle_load` -/
 def checkLoad (P : Problem) (S : Solution) : List (Option Code) :=
-  [firstErrOf (checkLoadTour P) S.tours, none]
+  [firstErrOf (checkLoadTour P) S.tours, checkResources P S]
 
 /-! ## Group 2: relations (relations.rs) -/
 
@@ -1112,6 +1169,50 @@ def loadsOk (P : Problem) (S : Solution) : Bool :=
       | none => false
       | some ivs => (t.stops.length ≤ 1 || actsKnown P t) && intervalsLoadsOk P v.capacity (dims P v) (fun _ => 0) ivs)
 
+/-! ## shared reload resources -/
+
+/-- the reload place of the shift (by location and tag) a reload activity is served at -/
+def reloadPlaceOf (P : Problem) (t : Tour) (s : Stop) (a : Act) : Option Place :=
+  if a.ty == .reload then
+    (shiftOf P t).bind (fun sh => sh.reloads.find? (fun r => r.loc == actLoc s a && r.tag == a.tag))
+  else none
+
+/-- the shared resource a reload interval draws on: the one of the reload that opens it (the first activity of its
+first stop), if that reload place names one -/
+def drawsOn (P : Problem) (t : Tour) (iv : List Stop) : Option String :=
+  match iv with
+  | [] => none
+  | s0 :: _ =>
+    match s0.acts.head? with
+    | none => none
+    | some a => (reloadPlaceOf P t s0 a).bind (fun r => r.resource)
+
+/-- what tour `t` takes from resource `id` in dimension `d`: the static deliveries of every reload interval that draws on
+it (they are loaded at the reload that opens the interval) -/
+def tourDrawn (P : Problem) (t : Tour) (id : String) (d : Nat) : Int :=
+  match intervals t.stops with
+  | none => 0
+  | some ivs => sumInt ((ivs.filter (fun iv => drawsOn P t iv == some id)).map (fun iv => sumStops (stopD P d) iv))
+
+/-- what all tours together take from resource `id` in dimension `d` -/
+def drawn (P : Problem) (S : Solution) (id : String) (d : Nat) : Int := sumInt (S.tours.map (fun t => tourDrawn P t id d))
+
+/-- number of dimensions in play for a resource: the longest demand of the problem, its capacity vector, at least one -/
+def rdims (P : Problem) (cap : Load) : Nat :=
+  max (maxNat (P.jobs.flatMap (fun j => j.tasks.map (fun tk => tk.demand.length)))) (max cap.length 1)
+
+/-- every resource drawn on is defined by the problem, and in EVERY dimension the tours together take at most the capacity
+of each resource -/
+def resourcesOk (P : Problem) (S : Solution) : Bool :=
+  S.tours.all (fun t =>
+    match intervals t.stops with
+    | none => true
+    | some ivs => ivs.all (fun iv =>
+        match drawsOn P t iv with
+        | none => true
+        | some id => P.resources.any (fun r => r.1 == id)))
+  && P.resources.all (fun r => (List.range (rdims P r.2)).all (fun d => decide (drawn P S r.1 d ≤ r.2.getD d 0)))
+
 /-! ## routing and statistics -/
 
 def legsOk (P : Problem) (v : VType) (skip : Bool) : List Stop → Bool
@@ -1257,7 +1358,7 @@ def matchOk (P : Problem) (S : Solution) : Bool :=
 def parts (P : Problem) (S : Solution) : List (String × Bool) :=
   [("vehicles", vehiclesOk P S), ("partition", partitionOk P S), ("groups", groupsOk P S), ("loads", loadsOk P S),
    ("routing", routingOk P S), ("limits", limitsOk P S), ("relations", relationsOk P S), ("breaks", breaksOk P S),
-   ("match", matchOk P S)]
+   ("match", matchOk P S), ("resources", resourcesOk P S)]
 
 def validSolution (P : Problem) (S : Solution) : Bool := (parts P S).all (fun p => p.2)
 
